@@ -45,7 +45,7 @@ def check(pid, tier, seed):
     total, bad, diffs, shapes, samples = 0, [], [], set(), []
     for s, ni, no in runs:
         fin, fimpl, fmodel = [os.path.join(d, x) for x in ("tls_in.txt", "tls_impl.txt", "tls_model.txt")]
-        q = C.run([C.HARNESS, "tlspeer", "-seed", str(s), "-inbound", str(ni), "-outbound", str(no), "-in", fin, "-impl", fimpl], cwd=d, timeout=3600)
+        q = C.run([C.HARNESS, "tlspeer", "-seed", str(s), "-inbound", str(ni), "-outbound", str(no), "-in", fin, "-impl", fimpl], cwd=d, timeout=C.engine_timeout())
         if q.returncode != 0:
             R.violation({"property": pid, "kind": "harness tlspeer crashed", "detail": (q.stdout or "")[-2000:]}, "crash")
             continue
